@@ -413,6 +413,11 @@ impl Server {
                             self.events.push((ClientEvent::Malformed(m), phase));
                         }
                     }
+                    for fr in self.profile.pre_license.clone() {
+                        let mut b = Built::new();
+                        b.blob("scripted", &fr);
+                        self.emit(out, "pre-license", b);
+                    }
                     let lic = wire::license_pdu(&self.profile.license, 0x0080);
                     let f = wire::send_data_indication(self.profile.server_user, self.profile.io_channel, &lic);
                     self.emit(out, "license", f);
